@@ -10,6 +10,7 @@ import FP.Lemmas.Syntax
 import FP.Lemmas.SyntaxFull
 import FP.Lemmas.Lexer
 import FP.Model.Eval
+import FP.Gen.Visitor
 namespace FP.Props.C11
 open FP FP.Model.Syntax FP.Gen.Grammar FP.Lemmas.Syntax FP.Lemmas.Lexer
 
@@ -262,6 +263,81 @@ theorem gaps_never_change_the_evaluation (ps qs : List Piece) (hp : SrcOK ps) (h
     run tbl (String.ofList (srcText ps)) env input = run tbl (String.ofList (srcText qs)) env input := by
   unfold run
   rw [gaps_never_change_the_outcome ps qs hp hq h]
+
+/-! ### the visitor's shape, regenerated from parser/visitor.go -/
+
+section VisitorShape
+open FP.Gen.Visitor FP.Model.Eval
+
+/-- who visits which child, per Visit* method, as `FP.Model.Eval.compile` is written:
+    * the eight binary-operator methods and the indexer visit their LEFT operand themselves and the RIGHT
+      operand with a clone (`compile t r false`, flag thrown away);
+    * invocation (`a.b`), type (`a is T`), polarity, parenthesised, term, function and parameter-list
+      methods visit every child themselves (the `visitedRoot` flag is threaded through, in source order);
+    * only `VisitMemberInvocation` writes the flag;
+    * union, membership (`in` / `contains`), `$index`, `$total`, a bare quantity / unit / precision and the
+      bare external constant are rejected at once (`errNotSupported`; `.error` in `compile`). -/
+def expectedShape : List (String × List String × Bool × Bool) :=
+  [("VisitAdditiveExpression", ["self", "clone"], false, false), ("VisitAndExpression", ["self", "clone"], false, false),
+   ("VisitBooleanLiteral", [], false, false), ("VisitDateLiteral", [], false, false), ("VisitDateTimeLiteral", [], false, false),
+   ("VisitDateTimePrecision", [], false, true), ("VisitEqualityExpression", ["self", "clone"], false, false),
+   ("VisitExternalConstant", [], false, true), ("VisitExternalConstantTerm", [], false, false),
+   ("VisitFunction", ["self"], false, false), ("VisitFunctionInvocation", ["self"], false, false),
+   ("VisitIdentifier", [], false, true), ("VisitImpliesExpression", ["self", "clone"], false, false),
+   ("VisitIndexInvocation", [], false, true), ("VisitIndexerExpression", ["self", "clone"], false, false),
+   ("VisitInequalityExpression", ["self", "clone"], false, false), ("VisitInvocationExpression", ["self", "self"], false, false),
+   ("VisitInvocationTerm", ["self"], false, false), ("VisitLiteralTerm", ["self"], false, false),
+   ("VisitMemberInvocation", [], true, false), ("VisitMembershipExpression", [], false, true),
+   ("VisitMultiplicativeExpression", ["self", "clone"], false, false), ("VisitNullLiteral", [], false, false),
+   ("VisitNumberLiteral", [], false, false), ("VisitOrExpression", ["self", "clone"], false, false),
+   ("VisitParamList", ["self"], false, false), ("VisitParenthesizedTerm", ["self"], false, false),
+   ("VisitPluralDateTimePrecision", [], false, true), ("VisitPolarityExpression", ["self"], false, false),
+   ("VisitProg", ["self"], false, false), ("VisitQualifiedIdentifier", [], false, false), ("VisitQuantity", [], false, true),
+   ("VisitQuantityLiteral", [], false, false), ("VisitStringLiteral", [], false, false), ("VisitTermExpression", ["self"], false, false),
+   ("VisitThisInvocation", [], false, false), ("VisitTimeLiteral", [], false, false), ("VisitTotalInvocation", [], false, true),
+   ("VisitTypeExpression", ["self", "self"], false, false), ("VisitTypeSpecifier", ["self"], false, false),
+   ("VisitUnionExpression", [], false, true), ("VisitUnit", [], false, true)]
+
+/-- the visitor of the current source has exactly the shape the model's `compile` is written after, and a
+    clone starts with the flag cleared and the same function table, transform and mode.  A visitor that
+    clones where the model threads the flag (or the reverse), writes the flag elsewhere, or carries another
+    table into a clone breaks this before any program is evaluated. -/
+theorem visitor_shape_as_modelled :
+    methods.map (fun m => (m.name, m.visits.map (·.1), m.writesRoot, m.unsupported)) = expectedShape ∧
+    (methods.all fun m => m.visits.all fun v => v.1 == "self" || v.1 == "clone") = true ∧
+    cloneFields = ["Functions=v.Functions", "Transform=v.Transform", "Permissive=v.Permissive", "visitedRoot=false"] := by
+  decide +kernel
+
+/-- what the shape means in the model: the right operand of a binary operator is compiled with a cleared
+    flag whatever the flag was, its own flag is thrown away (the result carries the left operand's), and it
+    must compile for the whole to compile -/
+theorem right_operand_compiled_with_cleared_flag (t : List FP.Gen.FuncTable.Entry) (o : String) (l r : Ex) (vr vr1 : Bool) (cl : E)
+    (hl : compile t l vr = .ok (cl, vr1)) :
+    (compile t r false = .error → compile t (.bin o l r) vr = .error) ∧
+    (∀ e v, compile t (.bin o l r) vr = .ok (e, v) → v = vr1 ∧ ∃ cr v2, compile t r false = .ok (cr, v2)) := by
+  constructor
+  · intro hr; simp [compile, hl, hr, CRes.bind]
+  · intro e v h
+    simp only [compile, hl, CRes.bind] at h
+    cases hr : compile t r false with
+    | error => simp [hr] at h
+    | unmodelled => simp [hr] at h
+    | ok q =>
+      refine ⟨?_, q.1, q.2, rfl⟩
+      simp only [hr] at h
+      split at h
+      · simp at h; exact h.2.symm
+      · simp at h; exact h.2.symm
+      · simp at h; exact h.2.symm
+      · split at h
+        · simp at h; exact h.2.symm
+        · split at h
+          · simp at h; exact h.2.symm
+          · split at h
+            · simp at h; exact h.2.symm
+            · simp at h
+
+end VisitorShape
 
 open FP.Model.Eval in
 /-- non-vacuity and a test of the assembled pipeline on a concrete program (a test, not the claim) -/
